@@ -949,6 +949,9 @@ var mixedAlphabet = []string{
 	"frz T true by I", "frz T false by I", "frz C true by I",
 	"rep T C.h1 H2 5 by I", "rep C T S 5 by I", "rep T C.h1 H1 5 by I", "rep D D.h1 H1 5 by I", "rep N N.h1 H1 5 by I",
 	"xfer T T S 1 by H1", "xfer C C.h1 H2 -1 by H1", "xfer T T H2 -1 by H1",
+	// issue of the token asset to somebody who holds a record under the token's id that was made by
+	// a replenish of ANOTHER asset (rep C T S)
+	"iss T S 5 by I", "iss T H2 5 by I",
 }
 
 func uniq(l []string) []string {
